@@ -280,6 +280,29 @@ def expiryServeTTL (expires now : Int) : Option Nat :=
 SOA entry and the proof entries. -/
 def synthExpiry (soa : Int) (proofs : List Int) : Int := proofs.foldl boundMin soa
 
+/-- `denialProofCache.extract`: one admission yields the zone's SOA entry
+(lifetime from the SOA RRset and its signatures) and one entry per proof RRset
+(lifetime from the SOA RRset *and* that proof RRset); `none` = rejected. -/
+def proofAdmit (hardMax now maxTTL : Int) (cutUntil : Option Int) (common set : List ProofRR) : Option (Int × Int) :=
+  match denialProofExpiry hardMax now maxTTL cutUntil common,
+        denialProofExpiry hardMax now maxTTL cutUntil (common ++ set) with
+  | some a, some b => some (a, b)
+  | _, _ => none
+
+/-- `denialProofEvaluate` liveness + `denialProofResponse`: a denial is
+synthesised from the SOA entry *currently* cached for the zone (a later
+admission may have replaced it) and the selected proof entries only while
+every one of them is live; its expiry is the earliest of them all, its TTL the
+whole seconds left.  Result: (TTL stamped on every record, expiry reported to
+the request tree). -/
+def synthServe (soa : Int) (proofs : List Int) (now : Int) : Option (Nat × Int) :=
+  if now ≥ soa then none
+  else if proofs.isEmpty then none
+  else if proofs.any (fun p => decide (now ≥ p)) then none
+  else
+    let e := synthExpiry soa proofs
+    if e - now ≤ 0 then none else some (secs (e - now), e)
+
 /-! ### the late-write guard as a labelled transition system
 
 One key of `internal/cache.Cache`.  Values are identified by a fresh number
